@@ -29,7 +29,7 @@ RULE = (
     "non-trivial = >= 2 elements with different monomials are combined (reduced axis length >= 2 / inner dimension >= 2)."
 )
 ASSUMPTIONS = [
-    "prepend/append/to_begin/to_end share the coefficient kind of the array (mixed dtypes are C12's)",
+    "ediff1d's to_begin/to_end have a kind numpy can cast to the array's (same kind, or int into float); diff's prepend/append may have any kind (numpy promotes)",
     "ufunc.reduce/accumulate spellings are compared with an explicit integer axis (numpy's default axis=0 differs from sum's axis=None by definition)",
     "a case numpy rejects on the object array is discarded and counted",
 ]
@@ -43,12 +43,6 @@ def case_st(draw, only=None):
     fn = only or draw(st.sampled_from(FUNCS))
     call = RECIPES[fn].gen(draw, OG)
     call["fn"] = fn
-    # differences / joins need one coefficient kind
-    if fn in ("diff", "ediff1d"):
-        descs = operand_descs(call)
-        for d in descs[1:]:
-            if d["kind"] != descs[0]["kind"]:
-                d["kind"] = descs[0]["kind"]
     return call
 
 
@@ -94,6 +88,7 @@ def check_case(case, ctx):
     kw = resolve(case["kw"], "live")
     margs = resolve(case["args"], "model")
     mkw = resolve(case["kw"], "model")
+    mkw.pop("dtype", None)  # the model is exact: a requested result dtype only concerns storage
     fails = []
 
     expected_box = []
